@@ -192,7 +192,7 @@ static void do_export(vbi_page *pg, int m)
 
 /* ---------------- per-page battery ---------------- */
 
-static void exercise_page(vbi_page *pg, int is_cc, int heavy)
+static void exercise_page(vbi_page *pg, int is_cc, int heavy, int unref)
 {
 	int i;
 	if (pg->rows < 1 || pg->rows > 25 || pg->columns < 1 || pg->columns > 41) {
@@ -256,8 +256,52 @@ static void exercise_page(vbi_page *pg, int is_cc, int heavy)
 			free(canvas);
 		}
 	}
+	if (unref) {
+		vf_phase("vbi_unref_page");
+		vbi_unref_page(pg);
+	}
+}
+
+/* ---------------- pages kept across later vbi_decode calls ---------------- */
+
+#if defined(__SANITIZE_ADDRESS__)
+#  include <sanitizer/asan_interface.h>
+#  define C01_POISONED(p, n) (__asan_region_is_poisoned((void *)(p), (n)) != NULL)
+#else
+#  define C01_POISONED(p, n) 0
+#endif
+
+static void release_held(int h)
+{
+	if (!held_ok[h]) return;
+	held_ok[h] = 0;
 	vf_phase("vbi_unref_page");
-	vbi_unref_page(pg);
+	vbi_unref_page(&held[h]);
+}
+
+/* format.h: "the page may reference other objects in cache which are locked by the fetch
+ * functions, vbi_unref_page() must be called when done."  A page that has not been
+ * unreferenced yet must therefore still own its DRCS fonts and its DRCS colour table.
+ * Returns 1 if the page is intact.  Checked with the ASan shadow memory so that the
+ * finding gets its own key and the case goes on; rendering such a page would only
+ * repeat the same use-after-free in whatever function touches the font first. */
+static int held_page_intact(const vbi_page *pg, int h)
+{
+	int i;
+	for (i = 0; i < 32; i++)
+		if (pg->drcs[i] && C01_POISONED(pg->drcs[i], 48 * 60)) {
+			vf_fail("model:C01:held-page-drcs-freed",
+				"[drcs-font] page %x.%x fetched earlier and not yet passed to vbi_unref_page: its DRCS font pg->drcs[%d] was freed by a later vbi_decode (held slot %d)",
+				pg->pgno, pg->subno, i, h);
+			return 0;
+		}
+	if (pg->drcs_clut && C01_POISONED(pg->drcs_clut, 2 + 2 * 4 + 2 * 16)) {
+		vf_fail("model:C01:held-page-drcs-freed",
+			"[drcs-clut] page %x.%x fetched earlier and not yet passed to vbi_unref_page: its pg->drcs_clut table was freed by a later vbi_decode (held slot %d)",
+			pg->pgno, pg->subno, h);
+		return 0;
+	}
+	return 1;
 }
 
 /* ---------------- individual read-side calls ---------------- */
@@ -273,10 +317,15 @@ static void do_fetch_vt(int pgno, int subno, int level, int rows, int nav, int h
 	if (level == 3) cnt[C_FETCH_VT_L35_OK]++;
 	if (pgno == 0x900) { cnt[C_FETCH_900_OK]++; api_ok |= 1u << 6; }
 	if (may_hold && (rd & RD_HELD) && vf_chance(&xr, 1, 4)) {
+		/* keep the page (the documented way: vbi_unref_page only when done with it);
+		   it is rendered again later by OP_HELD, after more vbi_decode calls */
 		int h = (int)vf_below(&xr, 3);
+		release_held(h);
 		held[h] = *pg; held_ok[h] = 1; held_cc[h] = 0;
+		exercise_page(pg, 0, heavy, 0);
+		return;
 	}
-	exercise_page(pg, 0, heavy);
+	exercise_page(pg, 0, heavy, 1);
 }
 
 static void do_fetch_cc(int pgno, int may_hold)
@@ -302,9 +351,12 @@ static void do_fetch_cc(int pgno, int may_hold)
 	cnt[C_FETCH_CC_OK]++; api_ok |= 1u << 1;
 	if (may_hold && (rd & RD_HELD) && vf_chance(&xr, 1, 6)) {
 		int h = (int)vf_below(&xr, 3);
+		release_held(h);
 		held[h] = *pg; held_ok[h] = 1; held_cc[h] = 1;
+		exercise_page(pg, 1, 0, 0);
+		return;
 	}
-	exercise_page(pg, 1, 0);
+	exercise_page(pg, 1, 0, 1);
 }
 
 static void do_classify(int pgno)
@@ -394,7 +446,7 @@ static void do_search(int pgno, int subno, int kind, int flags)
 		case VBI_SEARCH_SUCCESS:
 			cnt[C_SEARCH_HIT]++; api_ok |= 1u << 13;
 			if (!pg) vf_fail("model:C01:search-success-no-page", "vbi_search_next returned SUCCESS with *pg == NULL");
-			else if (vf_chance(&xr, 1, 2)) { tmp_pg2 = *pg; exercise_page(&tmp_pg2, 0, 0); }
+			else if (vf_chance(&xr, 1, 2)) { tmp_pg2 = *pg; exercise_page(&tmp_pg2, 0, 0, 0); }   /* search.c: "Do not call vbi_unref_page() for this page. Also the page must not be modified": work on a copy, no unref */
 			break;
 		case VBI_SEARCH_NOT_FOUND: cnt[C_SEARCH_NOTFOUND]++; break;
 		case VBI_SEARCH_CACHE_EMPTY: cnt[C_SEARCH_EMPTY]++; break;
@@ -437,9 +489,10 @@ static void do_held(void)
 {
 	int h = (int)vf_below(&xr, 3);
 	if (!held_ok[h]) return;
+	if (!held_cc[h] && !held_page_intact(&held[h], h)) { held_ok[h] = 0; return; }   /* nothing left to unreference safely */
 	cnt[C_HELD_RENDER]++;
-	tmp_pg2 = held[h];
-	exercise_page(&tmp_pg2, held_cc[h], 0);
+	exercise_page(&held[h], held_cc[h], 0, 0);
+	if (vf_chance(&xr, 1, 3)) release_held(h);
 }
 
 /* ---------------- event handlers ---------------- */
